@@ -244,6 +244,37 @@ def gen_line(rng):
     return "".join(gen_token(rng) for _ in range(rng.randint(0, 7)))
 
 
+# candidates for ONE grapheme cluster wider than 2 columns (Hangul jamo sequences, emoji + modifiers / ZWJ sequences);
+# what the implementation's tables say is read per case (`text.graphemes`) and counted: `ansi.truncate:cut-at-cluster-width=N`
+WIDE_CLUSTERS = ["\u1100\uac00", "\u1100\u1100\u1161", "\u1100\uac00\u11a8", "\U0001f44d\U0001f3fd",
+                 "\U0001f468\u200d\U0001f469\u200d\U0001f467", "\U0001f926\U0001f3fc\u200d\u2642\ufe0f", "\u2764\u200d\U0001f525",
+                 "\u1100\u1100\uac00"]
+_WIDE_AT = {}  # line -> number of one-column characters in front of its wide cluster
+
+
+def gen_wide_line(rng):
+    """`k` one-column characters (escape sequences in between), a wide cluster, a suffix: truncation to k .. k+2 (+ tail)
+    columns cuts inside the wide cluster (the `width_of_grapheme > 2` arm of `truncate_str_impl`)."""
+    k = rng.randint(0, 4)
+    pre = [rng.choice("abxyz0-+") for _ in range(k)]
+    out = []
+    for ch in pre:
+        if rng.random() < 0.3:
+            out.append(ESC + "[" + gen_sgr(rng) + "m")
+        out.append(ch)
+    if rng.random() < 0.4:
+        out.append(ESC + "[" + gen_sgr(rng) + "m")
+    out.append(rng.choice(WIDE_CLUSTERS))
+    if rng.random() < 0.4:
+        out.append(ESC + "[m")
+    out.append(rng.choice(["", "a", "bc", "日", " x", rng.choice(WIDE_CLUSTERS) + "z"]))
+    if rng.random() < 0.3:
+        out.append(ESC + "[0m")
+    line = "".join(out)
+    _WIDE_AT[line] = k
+    return line
+
+
 STYLE_POOL = ["00000000,n1,_", "00000000,n2,_", "10000000,n1,_", "00000000,f1,_", "00000000,f9,_",
               "00000000,_,_", "10000000,n5,_", "00010000,r1.2.3,f4", "00000100,n2,n0"]
 
@@ -271,6 +302,9 @@ def corr_basic(ctx, rep, hook, mdl):
     lines[:6] = [ESC + "[!!maaaaaéaaaa" + ESC + "[0m", ESC + "[" + ";".join(["1"] * 33) + "mé" + ESC + "[m",
                  ESC + "[?1$pé" + ESC + "[m", ESC + "Pq" + "é" + ESC + "\\" + "x" + ESC + "[m",
                  ESC + "[31m0123" + ESC + "[m\n", ESC + "]8;;u" + ESC + "\x18x" + ESC + "[31m"]
+    # lines with a cluster wider than 2 columns at a known column (truncated there by corr_widths)
+    nw = min(ctx.n(80, 800), max(0, len(lines) - 6))
+    lines[6:6 + nw] = [gen_wide_line(ctx.rng) for _ in range(nw)]
     reqs = []
     for s in lines:
         h = hx(s)
@@ -346,6 +380,26 @@ def oracle_partition(rep, hook, lines, els):
                       "sequence dropped from its bookkeeping)", dict(kind="hook", op="ansi.elements", line=s, got=e))
 
 
+def cut_cluster_width(c, wtab, gtab):
+    """Width of the first cluster that does not fit (None: the line fits / data missing), as `truncate_str_impl` walks."""
+    total = wtab.get(c["strip"]) if c["strip"] is not None else None
+    if total is None or total <= c["dw"]:
+        return None
+    used = 0
+    for t in text_slices(c["rt_el"], c["rt"] or b""):
+        if t not in wtab:
+            return None
+        used += wtab[t]
+    for t in text_slices(c["el"], c["sb"]):
+        if t not in gtab:
+            return None
+        for _, wd in gtab[t]:
+            if used + wd > c["dw"]:
+                return wd
+            used += wd
+    return None
+
+
 def corr_widths(ctx, rep, hook, mdl, lines, impl):
     """measure / truncate: the Unicode data the model needs is fetched from the implementation."""
     per = 8
@@ -358,6 +412,10 @@ def corr_widths(ctx, rep, hook, mdl, lines, impl):
         tail = ctx.rng.choice(["", "", "→", "…", "日", ESC + "[7m>" + ESC + "[m", "ab"])
         dw = ctx.rng.randint(0, 7)
         fill = ctx.rng.randint(0, 1)
+        if s in _WIDE_AT and ctx.rng.random() < 0.85:  # cut inside the wide cluster
+            tail = ctx.rng.choice(["", "", "→", ESC + "[7m>" + ESC + "[m"])
+            dw = _WIDE_AT[s] + (1 if tail else 0) + ctx.rng.randint(0, 2)
+            fill = 0 if ctx.rng.random() < 0.2 else 1
         cases.append(dict(s=s, sb=sb, el=el, tail=tail, dw=dw, fill=fill, strip=ok_bytes(impl[k * per + 1])))
     # stage A: tail elements/strip, truncation of the tail
     reqs = []
@@ -417,6 +475,11 @@ def corr_widths(ctx, rep, hook, mdl, lines, impl):
                     wt[x] = wd
         wf = f"{len(wt)} " + " ".join(f"{hx(t)} {n}" for t, n in sorted(wt.items()))
         gf = f"{len(gt)} " + " ".join(f"{hx(t)} {len(gs)} " + " ".join(hx(x) for x in gs) for t, gs in sorted(gt.items()))
+        cw = cut_cluster_width(c, wtab, gtab)
+        if cw is not None:
+            rep.count("ansi.truncate:cut-at-cluster-width=%s" % (cw if cw < 5 else "5+"))
+            if cw > 2:
+                rep.count("ansi.truncate:wide-cluster-at-cut:fill=%d" % c["fill"])
         reqs.append((f"ansi.measure {hx(c['s'])}", wf.strip()))
         reqs.append((f"ansi.truncate {hx(c['s'])} {c['dw']} {hx(c['tail'])} {c['fill']}", (wf.strip() + " " + gf.strip()).strip()))
     impl2 = hook.ask([r for r, _ in reqs])
